@@ -59,14 +59,17 @@ def reservedGetters : List String :=
    "GetTaggedByInContext", "HotSwap", "IsTaggedBy", "OverrideParam", "OverrideService", "Root",
    "Container"]
 
+def mustPrefix : List Char := ['M', 'u', 's', 't']
+def inContextSuffix : List Char := ['I', 'n', 'C', 'o', 'n', 't', 'e', 'x', 't']
+
 def serviceGetter (s : Service) : Errs :=
   match s.getter with
   | none => []
   | some g =>
     if reservedGetters.contains g then ["getter: " ++ q g ++ " is reserved"]
     else
-      (if "Must".toList.isPrefixOf g.toList then ["getter: prefix \"Must\" is not allowed"] else []) ++
-      (if "InContext".toList.isSuffixOf g.toList then ["getter: suffix \"InContext\" is not allowed"] else []) ++
+      (if mustPrefix.isPrefixOf g.toList then ["getter: prefix \"Must\" is not allowed"] else []) ++
+      (if inContextSuffix.isSuffixOf g.toList then ["getter: suffix \"InContext\" is not allowed"] else []) ++
       regexField "getter" g Rx.goToken
 
 def indexed {α : Type} (l : List α) : List (Nat × α) := l.zipIdx.map fun (a, i) => (i, a)
